@@ -28,10 +28,18 @@ def run(case):
 
     def seq():
         return [1, 2, 3]
+
+    def proxy():
+        import types
+        return types.MappingProxyType({'name': 'world', 'count': 3})
+
+    def nested_proxy():
+        import collections
+        return {'inner': collections.ChainMap({'k': 1}), 'tags': frozenset(['a'])}
     texts = {'jobj': '{"a": 1}', 'jarr': '[1, 2, {"n": "x"}]', 'mixed1': "[INFO] reloaded {'debug': True}", 'mixed2': '{x]',
              'html': '<!doctype html><html><body>x</body></html>', 'plain': 'just text', 'empty': '', 'bytesarr': b'[1,2]'}
     routes = [('/nodoc', nodoc, render_basic), ('/onedoc', onedoc, render_basic), ('/multidoc', multidoc, render_basic),
-              ('/seq', seq, render_basic)]
+              ('/seq', seq, render_basic), ('/proxy', proxy, render_basic), ('/nested', nested_proxy, render_basic)]
     for k, v in texts.items():
         routes.append(('/t/' + k, (lambda v=v: v), render_basic))
     app = Application(routes)
@@ -42,6 +50,14 @@ def run(case):
         r = cl.get('/t/' + k)
         if r.status_code != 200 or r.mimetype != want:
             problems.append('text %r: %s %s, expected 200 %s' % (texts[k], r.status_code, r.mimetype, want))
+    for path, want in (('/proxy', {'name': 'world', 'count': 3}), ('/nested', {'inner': {'k': 1}, 'tags': ['a']})):
+        r = cl.get(path)
+        try:
+            got = json.loads(r.get_data(as_text=True)) if r.status_code == 200 else '<status %s>' % r.status_code
+        except ValueError:
+            got = '<not JSON>'
+        if got != want:
+            problems.append('%s: a string-keyed mapping that is not a dict serialised as %r, expected %r' % (path, got, want))
     accepts = [(None, 'application/json'), ('application/json', 'application/json'), ('text/html', 'text/html'),
                ('application/json, text/html;q=0.1', 'application/json'), ('text/html, application/json;q=0.1', 'text/html'),
                ('application/json, text/plain, */*;q=0.01', 'application/json'), ('text/html;q=0.2, application/json;q=0.9', 'application/json')]
